@@ -93,6 +93,8 @@ pub struct WorkerSummary {
     pub ops_total: u64,
     #[serde(default)]
     pub other_samples: Vec<String>,
+    #[serde(default)]
+    pub sweep_hist: BTreeMap<String, u64>,
 }
 
 fn add(m: &mut BTreeMap<String, u64>, k: &str, v: u64) {
@@ -172,8 +174,12 @@ pub struct Case {
     pub sweep_fire_at: Option<u64>,
 }
 
+pub static THOROUGH: std::sync::atomic::AtomicBool = std::sync::atomic::AtomicBool::new(false);
+
 pub fn make_case(seed: u64, prop: &str, fam: &families::Family, index: u64) -> Case {
     let run_seed = mix(mix(mix(seed, hash_str(prop)), hash_str(fam.name)), index);
+    let big = THOROUGH.load(std::sync::atomic::Ordering::Relaxed) && index % 2 == 1;
+    gen::BIG.with(|b| b.set(big));
     let mut rng = Rng::new(run_seed);
     // position sweeps: cases come in groups that share one program and differ in the position
     let (prog, sweep_fire_at) = if fam.sweep_width > 0 {
@@ -234,6 +240,7 @@ fn worker(a: &Args) {
             s.max_ops = s.max_ops.max(nops);
             if c.sweep_fire_at.is_some() && rep.result.counters.sweep_fired > 0 {
                 s.sweep_positions += 1;
+                add(&mut s.sweep_hist, &format!("{:03}", c.sweep_fire_at.unwrap()), 1);
             }
             add(&mut s.strategies, &format!("{:?}", c.strategy).split(|ch| ch == '(' || ch == ' ').next().unwrap_or("?").to_string(), 1);
             add(&mut s.pools, &format!("pool{}", c.prog.pool_max), 1);
@@ -408,6 +415,9 @@ fn check(a: &Args) -> i32 {
         }
         tot.harness_errors.extend(s.harness_errors.iter().cloned());
         tot.other_samples.extend(s.other_samples.iter().cloned());
+        for (k, v) in &s.sweep_hist {
+            add(&mut tot.sweep_hist, k, *v);
+        }
         if let Some(v) = &s.violation {
             violations.push(v.clone());
         }
@@ -510,6 +520,7 @@ fn check(a: &Args) -> i32 {
             "liveness_promises": tot.liveness_modes,
             "program_size": {"max_operations": tot.max_ops, "mean_operations": if tot.runs > 0 { tot.ops_total as f64 / tot.runs as f64 } else { 0.0 }},
             "sweep_positions_injected": tot.sweep_positions,
+            "sweep_injections_by_position": tot.sweep_hist,
             "real_vs_stub": {
                 "real": ["src/desync.rs", "src/pipe.rs", "src/scheduler/* (built from the repository's working tree)", "futures crate pieces desync uses (oneshot, FutureObj, ArcWake)"],
                 "model": ["Mutex, Condvar, mpsc::channel, thread spawn/park/unpark/join/panicking (desync_verif_rt, every operation a scheduling point)", "lazy_static globals (per-run store)", "initial pool maximum (run configuration instead of num_cpus)"],
@@ -652,6 +663,9 @@ fn determinism(a: &Args) -> i32 {
 
 fn main() {
     let a = parse_args();
+    if a.get("tier").map(|s| s.to_string()).or_else(|| std::env::var("VERIF_TIER").ok()).as_deref() == Some("thorough") {
+        THOROUGH.store(true, std::sync::atomic::Ordering::Relaxed);
+    }
     let code = match a.pos.first().map(|s| s.as_str()) {
         Some("worker") => {
             worker(&a);
